@@ -134,7 +134,7 @@ def extract(features=None, force=False):
         os.rename(tmp, d)
         # keep the cache small: drop fact dirs other than the newest four
         olds = sorted(glob.glob(os.path.join(CACHE, "facts-*")), key=os.path.getmtime)
-        for o in olds[:-4]:
+        for o in olds[:-12]:
             shutil.rmtree(o, ignore_errors=True)
         return d
     finally:
@@ -174,9 +174,10 @@ class Facts:
                             self.consts[r["id"]] = r
                         elif k == "astattrs":
                             self.astattrs[r["id"]] = r
-            with open(pk + ".tmp", "wb") as fh:
+            tmp = "%s.%d.tmp" % (pk, os.getpid())      # concurrent checks may build the same pickle
+            with open(tmp, "wb") as fh:
                 pickle.dump((self.fns, self.adts, self.consts, self.crates, self.astattrs), fh, protocol=4)
-            os.rename(pk + ".tmp", pk)
+            os.replace(tmp, pk)
         self.by_name = {}
         for k, f in self.fns.items():
             self.by_name.setdefault(f["name"], []).append(f)
